@@ -193,7 +193,15 @@ class TermGen:
         if x < 0.88:
             return self.term(readable, depth - 1, "int")
         # calls through the function container
-        fn = r.choice(["lin", "sq", "sub3", "mean", "pick"])
+        fn = r.choice(["lin", "sq", "sub3", "mean", "pick", "tot"])
+        if fn == "tot":
+            # a task that reads a WHOLE nested container (depends on the enclosing ref, not on its members)
+            names = {tuple(map(str, x["path"])) for x in readable}
+            groups = [g for g, members in (("n", [["r", I("n"), I(k)] for k in "xyz"]), ("l", [["r", I("l"), I(j)] for j in range(3)]))
+                      if all(tuple(map(str, m)) in names for m in members)]
+            if groups and "keys" in self.profile:
+                return ["call", "tot", [["ref", ["r", I(r.choice(groups))]]], []]
+            fn = "sq"
         t = lambda: self.term(readable, depth - 1)
         if fn == "lin":
             kw = [["k", t()]] if r.random() < 0.5 else []
@@ -243,7 +251,7 @@ class HistoryGen:
     """
 
     WEIGHTS = {"define": 0.40, "leafval": 0.25, "val": 0.08, "iop": 0.10, "unreg": 0.04,
-               "ftask": 0.03, "knob": 0.03, "replace": 0.04, "unreg_task": 0.03}
+               "ftask": 0.03, "knob": 0.03, "replace": 0.04, "unreg_task": 0.03, "reverse": 0.04}
 
     def __init__(self, rng, layered=True, depth=3, weights=None, profile="full", world=None):
         self.rng = rng
@@ -293,6 +301,8 @@ class HistoryGen:
     def propose(self):
         r, s = self.rng, self.shadow
         kind = self._choose_kind()
+        if getattr(self, "_pending_reverse", None) and not self.layered and r.random() < 0.4:
+            kind = "reverse"        # second half of the re-definition / reverse-dependency pattern
         nonleaf = [l for l in self.locs if l["group"] != "leaf"]
         leaves = [l for l in self.locs if l["group"] == "leaf"]
         tt = self.task_targets()
@@ -397,6 +407,37 @@ class HistoryGen:
             else:
                 node = {"obj": [[k, v] for k, v in zip("pqs", vals)]}
             return ["replace", ["r", I(group)], node]
+        if kind == "reverse":
+            # re-definition with FEWER dependencies, later followed by the reverse dependency: c = f(s, p);
+            # c = g(s); p = h(c).  Only possible where the data-flow direction may change (free worlds).
+            if self.layered:
+                return None
+            if getattr(self, "_pending_reverse", None):
+                p_path, c_path = self._pending_reverse
+                self._pending_reverse = None
+                pck, cck = s.ckey(p_path), s.ckey(c_path)
+                if pck in tt or cck not in s.defs or s.depends_on(cck, pck):
+                    return None
+                other = [l for l in self.readable_for(self.by_ck[pck]) if l["kind"] == "float"] if pck in self.by_ck else []
+                extra = ["ref", r.choice(other)["path"]] if other else ["lit", enc(1.0)]
+                return ["set", p_path, ["t", ["bin", r.choice(["add", "sub", "mul"]), ["ref", c_path], extra]]]
+            cands = [ck for ck, t in s.defs.items() if ck in self.by_ck and len({repr(x) for x in P.term_paths(t)}) >= 2]
+            if not cands:
+                return None
+            cck = r.choice(sorted(cands, key=repr))
+            reads = []
+            for x in P.term_paths(s.defs[cck]):
+                if x not in reads and all(st[0] != "k" for st in x[1:]):
+                    reads.append(x)
+            if len(reads) < 2:
+                return None
+            keep = r.choice(reads)
+            dropped = [x for x in reads if x != keep and s.ckey(x) in self.by_ck
+                       and self.by_ck[s.ckey(x)]["kind"] == "float" and s.ckey(x) not in tt]
+            if not dropped:
+                return None
+            self._pending_reverse = (r.choice(dropped), self.by_ck[cck]["path"])
+            return ["set", self.by_ck[cck]["path"], ["t", ["bin", "mul", ["ref", keep], ["lit", enc(r.choice([3.0, 0.5, -2.0]))]]]]
         if kind in ("refresh", "cleanup", "verify"):
             return [kind]
         if kind == "load":
